@@ -1,8 +1,8 @@
 """
 C15 — shared text-format helpers recover the data that was rendered.
 
-Tie: get_active_lines, split_kv_pairs, calc_offset, parse_fixed_table, parse_delimited_table,
-keyword_search (insights/parsers/__init__.py) and IniConfigFile (insights/core/__init__.py, through
+Tie: get_active_lines, optlist_to_dict, split_kv_pairs, unsplit_lines, calc_offset, parse_fixed_table,
+parse_delimited_table, keyword_search (insights/parsers/__init__.py — every function of it) and IniConfigFile incl. set() (insights/core/__init__.py, through
 insights.tests.context_wrap, so the grammar of insights/parsr/iniparser.py is inside the compared
 behaviour) are run in-process on rendered documents (and on irregular ones) and compared with
 IV.TextFormats (Drivers/C15.lean) reading the SAME text.  The matcher table of keyword_search is
@@ -22,10 +22,12 @@ from collections import OrderedDict
 
 from harness.common import VERIF, REPO, enc, run_driver
 
+import copy
+
 from insights.parsers import (get_active_lines, split_kv_pairs, calc_offset, parse_fixed_table,
-                              parse_delimited_table, keyword_search)
+                              parse_delimited_table, keyword_search, optlist_to_dict, unsplit_lines)
 from insights.core import IniConfigFile
-from insights.core.exceptions import ParseException
+from insights.core.exceptions import ParseException, SkipComponent
 from insights.parsr.iniparser import NoOptionError, NoSectionError
 from insights.tests import context_wrap
 
@@ -96,7 +98,8 @@ def render_cells(cols, cells):
 def render_fixed(t):
     """IV.TextFormats.renderFixed; a row may carry a 4th element: per-cell indentation inside the column
     (cells of `cols`, then the last cell) — the Lean renderer is the case of no indentation"""
-    head = spaces(t["lead"]) + render_cells(t["cols"], [n for n, _ in t["cols"]]) + t["lastName"] + spaces(t["lastPad"])
+    hn = t.get("wnames") or ([n for n, _ in t["cols"]] + [t["lastName"]])      # headings as WRITTEN (see header_substitute)
+    head = spaces(t["lead"]) + render_cells(t["cols"], hn[:-1]) + hn[-1] + spaces(t["lastPad"])
     rows = []
     for r in t["rows"]:
         ind = r[3] if len(r) > 3 else [0] * (len(r[0]) + 1)
@@ -125,6 +128,95 @@ def render_ini_item(it):
 def render_ini(doc):
     return [render_ini_item(it) for it in doc]
 
+
+
+# ------------------------------------------------------------------ round 10: unsplit_lines, optlist_to_dict, IniConfigFile.set / getint / getfloat
+
+OPTLIST_FINDING = "optlist-empty-value-strip-quotes"
+
+
+class _RowList(list):
+    """a list that can take attributes: keyword_search keeps its `_transform_cache` on such a rows object itself"""
+    pass
+
+
+def X(sets):
+    return "X" + ",".join(enc(a) + ":" + enc(b) + ":" + O(v) for a, b, v in sets)
+
+
+def render_logicals(cont, doc):
+    out = []
+    for lg in doc:
+        out += [p + cont + spaces(n) for p, n in lg["parts"]] + ([lg["last"]] if lg["last"] is not None else [])
+    return out
+
+
+def render_optitem(kv, it):
+    if it[0] == "flag":
+        return it[1]
+    _, lead, k, gap, v = it
+    return spaces(lead) + k + spaces(gap) + kv + v
+
+
+def show_optdict(r):
+    if not isinstance(r, dict):
+        return "not-a-dict %r" % (r,)
+    parts = []
+    for k, v in r.items():
+        if v is True:
+            parts.append(enc(k) + ":N")
+        elif isinstance(v, str) and isinstance(k, str):
+            parts.append(enc(k) + ":S" + enc(v))
+        else:
+            return "odd-item %r" % ((k, v),)
+    return "ok r" + ",".join(parts)
+
+
+def same_twice(fails, what, first, again):
+    """HISTORY: the same call on the same arguments answers the same (no state is carried from call to call)"""
+    if first != again:
+        fails.append(("%s answers differently when called a second time on the same arguments: first %s, then %s" % (what, first[:400], again[:400]), None))
+
+
+def unchanged(fails, what, before, after):
+    if before != after:
+        fails.append(("%s changed the caller's object: before %r, after %r" % (what, before, after), None))
+
+
+def conv_via_get(p, s, o, conv):
+    """what getint / getfloat must answer: the conversion of what get() answers"""
+    try:
+        v = p.get(s, o)
+    except NoSectionError:
+        return "E:NoSectionError"
+    except NoOptionError:
+        return "E:NoOptionError"
+    try:
+        return "v:%r" % (conv(v),)
+    except (ValueError, TypeError) as e:
+        return "E:" + type(e).__name__
+
+
+def conv_direct(f):
+    try:
+        return "v:%r" % (f(),)
+    except NoSectionError:
+        return "E:NoSectionError"
+    except NoOptionError:
+        return "E:NoOptionError"
+    except Exception as e:      # whatever a changed tree raises is an answer to compare
+        return "E:" + type(e).__name__
+
+
+def ini_numeric_glue(p, qs, fails):
+    """getint / getfloat are the conversions of get(); `data` is the parser itself"""
+    for s, o in qs:
+        for name, conv in (("getint", int), ("getfloat", float)):
+            want, got = conv_via_get(p, s, o, conv), conv_direct(lambda: getattr(p, name)(s, o))
+            if want != got:
+                fails.append(("%s(%r, %r) = %s, but %s(get(%r, %r)) = %s" % (name, s, o, got, conv.__name__, s, o, want), None))
+    if p.data is not p:
+        fails.append(("IniConfigFile.data is not the parser itself", None))
 
 # ------------------------------------------------------------------ evaluation of one case: (driver line, impl answer, oracle failures)
 
@@ -236,8 +328,11 @@ def defaults_calls(base, style):
             kw_min["heading_ignore"] = base["hi"]
         if base["ti"]:
             kw_min["trailing_ignore"] = base["ti"]
+        if base.get("sub"):
+            kw_min["header_substitute"] = [tuple(x) for x in base["sub"]]
         a_min = _ans(lambda: parse_fixed_table(lines, **kw_min), show_dicts)
-        a_exp = _ans(lambda: parse_fixed_table(lines, heading_ignore=fresh(base["hi"], style), header_substitute=[],
+        a_exp = _ans(lambda: parse_fixed_table(lines, heading_ignore=fresh(base["hi"], style),
+                                               header_substitute=[tuple(fresh(list(x), style)) for x in base.get("sub", [])],
                                                trailing_ignore=fresh(base["ti"], style), empty_exception=fresh(False, style)), show_dicts)
         rows = _rows_or_none(lambda: parse_fixed_table(lines, **kw_min))
     elif op == "delim":
@@ -253,11 +348,14 @@ def defaults_calls(base, style):
             kw_min["heading_ignore"] = base["hi"]
         if base.get("ti"):
             kw_min["trailing_ignore"] = base["ti"]
+        if base.get("sub"):
+            kw_min["header_substitute"] = [tuple(x) for x in base["sub"]]
         a_min = _ans(lambda: parse_delimited_table(lines, **kw_min), show_dicts)
         a_exp = _ans(lambda: parse_delimited_table(
             lines, delim=fresh(base["d"], style), max_splits=int(str(base.get("m", -1))), strip=fresh(base.get("strip", True), style),
             header_delim=fresh("same as delimiter", style), heading_ignore=fresh(base["hi"], style) if base.get("hi") else empty(),
-            header_substitute=empty(), trailing_ignore=fresh(base["ti"], style) if base.get("ti") else empty(),
+            header_substitute=[tuple(fresh(list(x), style)) for x in base["sub"]] if base.get("sub") else empty(),
+            trailing_ignore=fresh(base["ti"], style) if base.get("ti") else empty(),
             raw_line_key=None if style != "subclass" else _S("")), show_dicts)
         rows = _rows_or_none(lambda: parse_delimited_table(lines, **kw_min))
     else:
@@ -368,14 +466,18 @@ def ini_queries(doc, rng):
     return qs
 
 
-def ini_impl(lines, anv, qs):
-    """real IniConfigFile on the text: (tree after defaults, answer line)"""
+def ini_parse(lines, anv):
     class P_(IniConfigFile):
         def parse_content(self, content):
             super(P_, self).parse_content(content, allow_no_value=anv)
-    p = P_(context_wrap("\n".join(lines)))
-    tree = "T" + ";".join(enc(s.name) + "|" + ",".join(enc(o.name) + ":" + O(None if o.value is None else str(o.value)) for o in s.children) for s in p.doc)
+    return P_(context_wrap("\n".join(lines)))
 
+
+def ini_tree(p):
+    return "T" + ";".join(enc(s.name) + "|" + ",".join(enc(o.name) + ":" + O(None if o.value is None else str(o.value)) for o in s.children) for s in p.doc)
+
+
+def ini_answer(p, qs):
     def exc(f, show):
         try:
             return "v:" + show(f())
@@ -391,8 +493,21 @@ def ini_impl(lines, anv, qs):
         parts.append("get=" + exc(lambda: p.get(s, o), O) + ",has=" + B(p.has_option(s, o)) +
                      ",bool=" + exc(lambda: p.getboolean(s, o), B) + ",in=" + B(s in p) +
                      ",items=" + exc(lambda: p.items(s), lambda h: "r" + "/".join(enc(k) + ":" + O(v) for k, v in h.items())))
-    ans = d + "#" + L(p.sections()) + "#" + "r" + ",".join(enc(k) + ":" + O(v) for k, v in p.defaults().items()) + "#" + ";".join(parts)
-    return p, tree, ans
+    return d + "#" + L(p.sections()) + "#" + "r" + ",".join(enc(k) + ":" + O(v) for k, v in p.defaults().items()) + "#" + ";".join(parts)
+
+
+def ini_impl(lines, anv, qs):
+    """real IniConfigFile on the text: (parser, tree after defaults, answer line)"""
+    p = ini_parse(lines, anv)
+    return p, ini_tree(p), ini_answer(p, qs)
+
+
+def ini_items_all(p):
+    """{section: [(option, value), ...]} through the public accessors"""
+    out = OrderedDict()
+    for s in list(p.sections()) + (["DEFAULT"] if "DEFAULT" in p else []):
+        out[s] = list(p.items(s).items())
+    return out
 
 
 def ini_finding(doc, sec, opt):
@@ -461,17 +576,32 @@ def evaluate(c):
             a = "ok r" + ",".join(enc(k) + ":" + enc(v) for k, v in r.items())
         except ValueError as e:
             r, a = None, err(e)
+        if r is not None:
+            before = list(lines)
+            kw_ = dict(comment_char=cc, filter_string=c.get("filter"), split_on=c["sep"], use_partition=c.get("up", False), ordered=True)
+            try:
+                again = list(split_kv_pairs(lines, **kw_).items())
+                streamed = list(split_kv_pairs((x for x in before), **kw_).items())
+            except Exception as e:
+                again = streamed = "raised %r" % (e,)
+            unchanged(fails, "split_kv_pairs", before, lines)
+            same_twice(fails, "split_kv_pairs", repr(list(r.items())), repr(again))
+            same_twice(fails, "split_kv_pairs (the same lines given as a generator)", repr(list(r.items())), repr(streamed))
+            if c.get("ordered", False) and not isinstance(r, OrderedDict):
+                fails.append(("split_kv_pairs(ordered=True) returned a %s" % type(r).__name__, None))
         if "doc" in c and c.get("oracle"):
             want = OrderedDict()
+            flt = c.get("filter")
             for it in c["doc"]:
-                if it[0] == "pair":
+                # filter_string: only lines whose ACTIVE part (comment cut off, stripped) contains it
+                if it[0] == "pair" and (flt is None or flt in (it[2] + spaces(it[3]) + c["sep"] + spaces(it[4]) + it[5]).strip()):
                     want[it[2]] = it[5]
             if r is None or list(r.items()) != list(want.items()):
                 fails.append(("split_kv_pairs(render) = %r, the rendered pairs (last wins, in order) are %r" % (
                     None if r is None else list(r.items()), list(want.items())), None))
             # comments and blanks are inert: same answer without them
             bare = render_kv(c["cc"], c["sep"], [it for it in c["doc"] if it[0] == "pair"])
-            r2 = split_kv_pairs(bare, comment_char=cc, split_on=c["sep"], use_partition=c.get("up", False), ordered=True)
+            r2 = split_kv_pairs(bare, comment_char=cc, filter_string=flt, split_on=c["sep"], use_partition=c.get("up", False), ordered=True)
             if r is None or list(r2.items()) != list(r.items()):
                 fails.append(("a comment or blank line contributed: with %r, without %r" % (r, r2), None))
         return "kv\t%s\t%s\t%s\t%s\t%s" % (O(cc), O(c.get("filter")), enc(c["sep"]), B(c.get("up", False)), L(lines)), a, fails
@@ -480,6 +610,14 @@ def evaluate(c):
             a = "ok %d" % calc_offset(c["lines"], c["target"], invert_search=c["inv"], require_all=c["req"])
         except ValueError as e:
             a = err(e)
+        if not c["target"]:
+            for t in (None, [None], ()):
+                try:
+                    o = calc_offset(c["lines"], t, invert_search=c["inv"], require_all=c["req"])
+                except Exception as e:
+                    o = e
+                if o != 0:
+                    fails.append(("calc_offset(lines, %r) = %r: without a target the offset is 0" % (t, o), None))
         return "offset\t%s\t%s\t%s\t%s" % (B(c["inv"]), B(c["req"]), L(c["target"]), L(c["lines"])), a, fails
     if op == "fixed":
         lines = render_fixed(c["table"]) if "table" in c else c["lines"]
@@ -489,11 +627,20 @@ def evaluate(c):
             a = show_dicts(r)
         except (ValueError, IndexError, ParseException) as e:
             r, a = None, err(e)
+        args0 = copy.deepcopy((lines, c["hi"], c["ti"]))
+        a2 = _ans(lambda: parse_fixed_table(lines, heading_ignore=c["hi"], header_substitute=[tuple(x) for x in c.get("sub", [])],
+                                            trailing_ignore=c["ti"], empty_exception=c.get("ee", False)), show_dicts)
+        same_twice(fails, "parse_fixed_table", a, a2)
+        unchanged(fails, "parse_fixed_table", args0, (lines, c["hi"], c["ti"]))
         if "table" in c and c.get("oracle"):
             t = c["table"]
             names = [n for n, _ in t["cols"]] + [t["lastName"]]
             want = [dict(zip(names, row[0] + [row[1]])) for row in t["rows"]]
-            if r is None or [list(x.items()) for x in r] != [list(x.items()) for x in want]:
+            if c.get("ee") and any(x == "" for row in t["rows"] for x in row[0] + [row[1]]):
+                # empty_exception=True: a row with an empty cell is refused as a whole document
+                if a != "err ParseException":
+                    fails.append(("parse_fixed_table(render, empty_exception=True) = %s although a rendered cell is empty (rows %r)" % (a[:300], want), None))
+            elif r is None or [list(x.items()) for x in r] != [list(x.items()) for x in want]:
                 fails.append(("parse_fixed_table(render) = %r, rendered rows are %r" % (r, want), None))
         return "fixed\t%s\t%s\t%s\t%s\t%s" % (L(c["hi"]), P(c.get("sub", [])), L(c["ti"]), B(c.get("ee", False)), L(lines)), a, fails
     if op == "delim":
@@ -508,6 +655,10 @@ def evaluate(c):
             a = show_dicts(r)
         except (ValueError, IndexError) as e:
             r, a = None, err(e)
+        args0 = copy.deepcopy((lines, kw))
+        a2 = _ans(lambda: parse_delimited_table(lines, **kw), show_dicts)
+        same_twice(fails, "parse_delimited_table", a, a2)
+        unchanged(fails, "parse_delimited_table", args0, (lines, kw))
         if c.get("oracle"):
             want = [dict(zip(c["names"], row)) for row in c["rows"]]
             if r is None or [list(x.items()) for x in r] != [list(x.items()) for x in want]:
@@ -529,15 +680,43 @@ def evaluate(c):
             rendered = rows
         kwsets = c["kwsets"] if "kwsets" in c else [c["kwargs"]]
         parent = _Parent() if c.get("parent") else None
+        cont = c.get("container", "list")
+        if cont == "sub":
+            rows = _RowList(rows)          # keyword_search keeps its cache on such an object itself
+        elif cont == "tuple":
+            rows = tuple(rows)
+        snapshot = copy.deepcopy(list(rows))
         answers = []
+        if cont == "sub" or parent is not None:
+            # HISTORY inside the case (so that a replay has it too): ANOTHER object of the same classes, with other
+            # headings, was searched before — nothing of it may show in the searches below
+            d_row = OrderedDict([("zz decoy", "1")])
+            d_rows = _RowList([d_row]) if cont == "sub" else [d_row]
+            try:
+                dres = keyword_search(d_rows, parent=(_Parent() if parent is not None else None), zz_decoy="1")
+            except Exception as e:
+                dres = e
+            if not (isinstance(dres, list) and len(dres) == 1 and dres[0] is d_row):
+                fails.append(("keyword_search([{'zz decoy': '1'}], zz_decoy='1') = %r" % (dres,), None))
         for kws in kwsets:
             kwargs = OrderedDict((k, v) for k, v in kws)
-            r = keyword_search(rows, parent=parent, row_keys_change=c["rkc"], **kwargs)
+            try:
+                r = keyword_search(rows, parent=parent, row_keys_change=c["rkc"], **kwargs)
+            except (TypeError, AttributeError, KeyError, IndexError, ValueError) as e:
+                answers.append(err(e))
+                fails.append(("keyword_search(%r) on a %s of rows raised %r" % (kws, cont, e), None))
+                continue
+            if not isinstance(r, list):
+                answers.append("not-a-list")
+                fails.append(("keyword_search(%r) returned %r, not a list of rows" % (kws, r), None))
+                continue
+            if list(rows) != snapshot:
+                fails.append(("keyword_search(%r) changed the rows it was given: %r, before %r" % (kws, list(rows), snapshot), None))
             answers.append(show_rows(r))
             want = ks_expect(rendered, c["rkc"], kws)
             if [list(x.items()) for x in r] != [list(x.items()) for x in want] or any(not any(x is y for y in rows) for x in r):
                 fails.append(("keyword_search(%r) = %r, the rows satisfying every condition are %r" % (kws, r, want), None))
-        if len(kwsets) == 1 and not c.get("parent"):
+        if len(kwsets) == 1 and not c.get("parent") and cont != "sub":
             return "ks\t%s\t%s\t%s" % (B(c["rkc"]), R(rows), P(kwsets[0])), answers[0], fails
         return "ksseq\t%s\t%s\t%s" % (B(c["rkc"]), R(rows), "\t".join(P(k) for k in kwsets)), " | ".join(answers), fails
     if op == "kshist":
@@ -580,6 +759,123 @@ def evaluate(c):
             fails.append(("%s with the defaults passed explicitly as run-time copies (%s) answers %s, with the arguments omitted %s" % (
                 base["op"], style, a_exp[:300], a_min[:300]), None))
         return line, a_exp, fails
+    if op == "unsplit":
+        cont = c.get("cont", "\\")
+        lines = render_logicals(cont, c["doc"]) if "doc" in c else c["lines"]
+        before = list(lines)
+        kw = {}
+        if not c.get("omit_cont"):
+            kw["cont_char"] = cont
+        if "keep" in c:
+            kw["keep_cont_char"] = c["keep"]
+
+        def call(x):
+            try:
+                r = list(unsplit_lines(x, **kw))
+            except (ValueError, IndexError, TypeError, AttributeError) as e:
+                return None, err(e)
+            if not all(isinstance(y, str) for y in r):
+                return None, "odd-result %r" % (r,)
+            return r, "ok " + L(r)
+        r, a = call(lines)
+        unchanged(fails, "unsplit_lines", before, lines)
+        same_twice(fails, "unsplit_lines", a, call(lines)[1])
+        same_twice(fails, "unsplit_lines (the same lines given as a generator)", a, call(x for x in before)[1])
+        if "doc" in c and c.get("oracle"):
+            keep = c.get("keep", False)
+            want = ["".join(p + (cont if keep else "") for p, _ in lg["parts"]) + (lg["last"] or "").rstrip() for lg in c["doc"]]
+            if r != want:
+                fails.append(("unsplit_lines(render) = %r, the logical lines rendered are %r" % (r, want), None))
+        return "unsplit\t%s\t%s\t%s" % (enc(cont), B(c.get("keep", False)), L(lines)), a, fails
+    if op == "optlist":
+        osep, kv, sq = c.get("os", ","), c.get("kv", "="), c.get("sq", False)
+        text = osep.join(render_optitem(kv, it) for it in c["items"]) if "items" in c else c["text"]
+        kw = {} if c.get("omit") else dict(opt_sep=osep, kv_sep=kv, strip_quotes=sq)
+
+        def call():
+            try:
+                return optlist_to_dict(text, **kw)
+            except Exception as e:   # whatever a changed tree raises is an answer to compare, not a crash
+                return e
+        r = call()
+        a = err(r) if isinstance(r, Exception) else show_optdict(r)
+        r2 = call()
+        same_twice(fails, "optlist_to_dict", a, err(r2) if isinstance(r2, Exception) else show_optdict(r2))
+        if "items" in c and c.get("oracle"):
+            fid = OPTLIST_FINDING if (sq and kv is not None and any(it[0] == "kv" and it[4] == "" for it in c["items"])) else None
+            want = OrderedDict()
+            for it in c["items"]:
+                if it[0] == "flag":
+                    want[it[1]] = True
+                elif kv is None:
+                    want[render_optitem("", it)] = True
+                else:
+                    v = it[4]
+                    if sq and len(v) >= 2 and v[0] in "\"'" and v[-1] == v[0]:
+                        v = v[1:-1]
+                    want[it[2]] = v
+            got = None if isinstance(r, Exception) or not isinstance(r, dict) else list(r.items())
+            if got != list(want.items()):
+                fails.append(("optlist_to_dict(%r, opt_sep=%r, kv_sep=%r, strip_quotes=%r) = %s, the rendered options (last wins, in order) are %r" % (
+                    text, osep, kv, sq, ("raised " + repr(r)) if isinstance(r, Exception) else repr(r), list(want.items())), fid))
+        return "optlist\t%s\t%s\t%s\t%s" % (enc(osep), O(kv), B(sq), enc(text)), a, fails
+    if op == "iniset":
+        lines = render_ini(c["doc"]) if "doc" in c else c["lines"]
+        qs = [tuple(q) for q in c["qs"]]
+        sets = [tuple(x) for x in c["sets"]]
+        anv = c.get("anv", False)
+        line = "iniset\t%s\t%s\t%s\t%s" % (B(anv), L("\n".join(lines).strip().splitlines()), X(sets), P(qs))
+        try:
+            p, tree0, ans0 = ini_impl(lines, anv, qs)
+            items0, secs0 = ini_items_all(p), list(p.sections())
+        except SkipComponent:
+            return line, "skip", fails
+        except Exception as e:
+            return line, "parse-error", fails
+        results, overlay = [], OrderedDict()
+        for s_, o_, v_ in sets:
+            present = s_ in p
+            try:
+                p.set(s_, o_, v_)
+                results.append("ok")
+                if not present:
+                    fails.append(("set(%r, %r, %r) on a section that does not exist did not raise" % (s_, o_, v_), None))
+                overlay[(s_.strip(), o_.strip().lower())] = v_
+            except KeyError:
+                results.append("KeyError")
+                if present:
+                    fails.append(("set(%r, %r, %r) raised KeyError although %r in parser" % (s_, o_, v_, s_), None))
+            except Exception as e:
+                results.append(type(e).__name__)
+                fails.append(("set(%r, %r, %r) raised %r" % (s_, o_, v_, e), None))
+        try:
+            ans = ini_answer(p, qs)
+            items1, secs1 = ini_items_all(p), list(p.sections())
+            # what the history says: the parsed options with the assignments laid over them (position kept, new ones last)
+            want = OrderedDict((s_, OrderedDict(kvs)) for s_, kvs in items0.items())
+            for (s_, o_), v_ in overlay.items():
+                want[s_][o_] = v_
+            want = OrderedDict((s_, list(h.items())) for s_, h in want.items())
+            if secs1 != secs0:
+                fails.append(("sections() changed by set(): before %r, after %r" % (secs0, secs1), None))
+            if items1 != want:
+                fails.append(("after %r the options are %r; the parsed options with these assignments laid over them are %r" % (sets, dict(items1), dict(want)), None))
+            for (s_, o_), v_ in overlay.items():
+                for so in (o_, o_.upper()):
+                    try:
+                        got = p.get(" " + s_ + " ", so)
+                    except (NoOptionError, NoSectionError) as e:
+                        got = type(e).__name__
+                    if got != v_ or not p.has_option(s_, so):
+                        fails.append(("after set(%r, %r, %r): get(%r, %r) = %r" % (s_, o_, v_, s_, so, got), None))
+            # a FRESH parser of the same text knows nothing of the assignments made on the first one
+            p2, tree2, ans2 = ini_impl(lines, anv, qs)
+            if (tree2, ans2) != (tree0, ans0):
+                fails.append(("a fresh IniConfigFile of the same text answers differently after set() calls on an earlier object: before %s, now %s" % (ans0[:300], ans2[:300]), None))
+        except Exception as e:
+            fails.append(("the accessors raised after set(): %r" % e, None))
+            ans = "raised " + type(e).__name__
+        return line, ",".join(results) + "#" + ans, fails
     if op == "sort":
         return "sort\t" + L(c["keys"]), L(sorted(c["keys"])), fails
     if op == "hashseeds":
@@ -597,8 +893,22 @@ def evaluate(c):
         line = "initext\t%s\t%s\t%s" % (B(c.get("anv", False)), L("\n".join(lines).strip().splitlines()), P(qs))
         try:
             p, tree, ans = ini_impl(lines, c.get("anv", False), qs)
-        except Exception as e:  # the grammar rejects the text (parsr raises plain Exception) / SkipComponent
+        except SkipComponent:   # ConfigParser.parse_content: no content at all
+            if "doc" in c and c.get("oracle") and any(it[0] in ("sec", "opt") for it in c["doc"]):
+                fails.append(("a document with sections or options was skipped as empty", None))
+            return line, "skip", fails
+        except Exception as e:  # the grammar rejects the text (parsr raises plain Exception)
             return line, "parse-error", fails
+        ini_numeric_glue(p, qs, fails)
+        try:
+            for s_ in list(p.sections()) + (["DEFAULT"] if "DEFAULT" in p else []):
+                h = p.items(s_)
+                h["zz-added-by-caller"] = "x"
+                for k_ in list(h)[:1]:
+                    h[k_] = "changed-by-caller"
+            same_twice(fails, "IniConfigFile accessors (after the caller changed the dicts items() had returned)", ans, ini_answer(p, qs))
+        except Exception as e:
+            fails.append(("items() / the accessors raised on a second round: %r" % (e,), None))
         if "doc" in c and c.get("oracle"):
             want = ini_expect(c["doc"])
             tainted = ini_tainted(c["doc"])
@@ -699,7 +1009,28 @@ def gen_fixed(rng):
     use_ti = rng.random() < 0.5
     t["footer"] = [rng.choice(["", "  ", ti_word + " 3 rows", " " + ti_word]) for _ in range(rng.choice([0, 1, 2]))] if use_ti else []
     hi = [names[0]] if (junk or rng.random() < 0.3) else []
-    return {"op": "fixed", "table": t, "hi": hi, "ti": [ti_word] if use_ti else [], "oracle": True}
+    c = {"op": "fixed", "table": t, "hi": hi, "ti": [ti_word] if use_ti else [], "oracle": True}
+    if rng.random() < 0.15:
+        c["ee"] = True
+    if rng.random() < 0.12 and len(names) > 1:
+        # headings (not the first) WRITTEN with a blank inside and named through header_substitute; same width, so the
+        # geometry stays.  Admitted only when every written heading occurs exactly once in the heading line at its turn.
+        def ok_(x):
+            return "_" not in x and len(x) >= 3 and x.isascii()
+        wn = [names[0]] + [(x[0] + " " + x[2:]) if ok_(x) else x for x in names[1:]]
+        subs = []
+        for x, w in zip(names, wn):
+            if x != w and [w, x] not in subs:
+                subs.append([w, x])
+        t["wnames"] = wn
+        h, good = render_fixed(t)[len(t["junk"])], bool(subs)
+        for w, x in subs:
+            good = good and h.count(w) == 1
+            h = h.replace(w, x)
+        del t["wnames"]
+        if good and h == render_fixed(t)[len(t["junk"])]:
+            t["wnames"], c["sub"] = wn, subs
+    return c
 
 
 def pad_fit(rng, w):
@@ -755,7 +1086,12 @@ def gen_kv(rng):
             doc.append(["comment", rng.choice([0, 0, 1, 4]), rng.choice(["", " text", " key" + sep + "hidden", cc, " a " + cc + " b"])])
         else:
             doc.append(["blank", rng.choice([0, 0, 1, 5])])
-    return {"op": "kv", "cc": cc, "sep": sep, "doc": doc, "up": rng.random() < 0.3, "ordered": rng.random() < 0.5, "oracle": True}
+    c = {"op": "kv", "cc": cc, "sep": sep, "doc": doc, "up": rng.random() < 0.3, "ordered": rng.random() < 0.5, "oracle": True}
+    pairs = [it for it in doc if it[0] == "pair"]
+    if pairs and rng.random() < 0.2:
+        it = rng.choice(pairs)
+        c["filter"] = rng.choice([it[2], it[5], it[2][:1], sep, sep + " ", "zzz", it[2] + " " + sep])
+    return c
 
 
 def gen_kv_irregular(rng):
@@ -800,6 +1136,17 @@ def delim_around(rng, c, name0):
     return c
 
 
+def alias_headings(rng, d, names, wnames):
+    """some headings are WRITTEN with a blank inside ('Mounted on3') and named through header_substitute ('Mounted_on3')"""
+    sub = []
+    for i in range(len(names)):
+        written = "Mounted on%d" % i
+        if rng.random() < 0.6 and (d is None or sep_free(d, written)):
+            names[i], wnames[i] = "Mounted_on%d" % i, written
+            sub = [["Mounted on", "Mounted_on"]]
+    return sub
+
+
 def gen_delim(rng):
     if rng.random() < 0.7:
         d = rng.choice([",", "|", ":", ";", ",", "|", "::", "->", "aa"])
@@ -831,26 +1178,38 @@ def gen_delim(rng):
                 cs = [("z", "z")]
             rows.append([x for x, _ in cs])
             wrows.append([w for _, w in cs])
+        sub = alias_headings(rng, d, names, wnames) if rng.random() < 0.2 else []
         lines = [d.join(wnames)] + [d.join(r) for r in wrows]
-        return delim_around(rng, {"op": "delim", "d": d, "names": names, "rows": rows, "lines": lines, "oracle": True}, names[0])
+        c = {"op": "delim", "d": d, "names": names, "rows": rows, "lines": lines, "oracle": True}
+        if sub:
+            c["sub"] = sub
+        return delim_around(rng, c, wnames[0].strip() if sub else names[0])
     # white-space delimited
     n = rng.choice([1, 2, 3, 4])
     pool = [w for w in WORDS + HEADERS if w and not any(ch.isspace() for ch in w)]
     names = [rng.choice(pool) + str(i) for i in range(n)]
     rows = [[rng.choice(pool) for _ in range(n)] for _ in range(rng.choice([0, 1, 3]))]
-    lines = [rng.choice(["", "  ", "\t"]) + rng.choice([" ", "   ", "\t", " \t"]).join(r) + spaces(rng.choice([0, 1])) for r in [names] + rows]
+    wnames = list(names)
+    sub = alias_headings(rng, None, names, wnames) if rng.random() < 0.25 else []
+    lines = [rng.choice(["", "  ", "\t"]) + rng.choice([" ", "   ", "\t", " \t"]).join(r) + spaces(rng.choice([0, 1])) for r in [wnames] + rows]
     c = {"op": "delim", "d": None, "names": names, "rows": rows, "lines": lines, "oracle": True}
+    if sub:
+        c["sub"] = sub
     if rng.random() < 0.3:
         c["strip"] = False
-    return delim_around(rng, c, names[0])
+    return delim_around(rng, c, wnames[0])
 
 
 def gen_delim_irregular(rng):
     c = gen_delim(rng)
     lines = list(c["lines"])
     out = {"op": "delim", "d": c["d"], "lines": lines}
-    k = rng.randrange(8)
-    if k == 0:
+    k = rng.randrange(10)
+    if k >= 8:
+        h = lines[0] if lines else "x"
+        old = rng.choice([h.strip()[:1] or "x", h.strip()[:2] or "x", " ", c["d"] or " ", "nosuch"])
+        out["sub"] = [[old, rng.choice(["Q", "Q R", "", (c["d"] or " ") + "Z"])]] + ([["Q", "W"]] if rng.random() < 0.3 else [])
+    elif k == 0:
         out["m"] = rng.choice([0, 1, 2])
     elif k == 1:
         out["strip"] = False
@@ -955,8 +1314,9 @@ def gen_ks_special(rng):
         rows.append([[h, rng.choice(CELLS + [None])] for h in hs])
     parent = rng.random() < 0.5
     allh = heads if not rkc else list(dict.fromkeys(h for r in rows for h, _ in r))
-    return {"op": "ks", "rows": rows, "rkc": rkc, "parent": parent,
-            "kwsets": gen_kwsets(rng, allh, [[v for _, v in r] for r in rows], rng.choice([2, 3, 4]) if parent else 1)}
+    cont = rng.choice(["list", "list", "sub", "tuple"])
+    return {"op": "ks", "rows": rows, "rkc": rkc, "parent": parent, "container": cont,
+            "kwsets": gen_kwsets(rng, allh, [[v for _, v in r] for r in rows], rng.choice([2, 3, 4]) if (parent or cont == "sub") else 1)}
 
 
 def gen_tab_ks(rng):
@@ -1054,11 +1414,109 @@ def gen_defaults(rng):
         else:
             base = {"op": "kv", "cc": "#", "sep": "=", "doc": [["pair", 0, "k", 1, 1, "v", 0, None]], "oracle": True}
         base["up"], base["ordered"] = False, False
+        base.pop("filter", None)
     elif k == 1:
         base = gen_fixed(rng)
+        base.pop("ee", None)
     else:
         base = gen_delim(rng)
     return {"op": "defaults", "case": base, "style": style}
+
+
+UNSPLIT_PIECES = ["Line one ", "  part 2", "a", "", "x = 1", "opt \\n literal", "tab\t", "é", "b\\c", "  ", "key: v", "-o"]
+
+
+def gen_unsplit(rng):
+    """logical lines rendered over several physical lines: every piece but the last followed by the continuation
+    character and blanks; optionally the document ENDS inside a continuation"""
+    cont = rng.choice(["\\", "\\", "\\", "&", ",", "^"])
+    doc = []
+
+    def piece():
+        for _ in range(30):
+            x = rng.choice(UNSPLIT_PIECES)
+            if cont not in x:
+                return x
+        return "p"
+    for _ in range(rng.choice([0, 1, 2, 3, 5])):
+        parts = [[piece(), rng.choice([0, 0, 1, 3])] for _ in range(rng.choice([0, 0, 1, 2, 4]))]
+        last = piece() + rng.choice(["", "", " ", "\t "])
+        doc.append({"parts": parts, "last": last})
+    if rng.random() < 0.3:
+        doc.append({"parts": [[piece(), rng.choice([0, 2])] for _ in range(rng.choice([1, 1, 2, 3]))], "last": None})
+    c = {"op": "unsplit", "cont": cont, "doc": doc, "oracle": True}
+    if rng.random() < 0.5:
+        c["keep"] = rng.random() < 0.6
+    if cont == "\\" and rng.random() < 0.5:
+        c["omit_cont"] = True
+    return c
+
+
+def gen_unsplit_irregular(rng):
+    c = gen_unsplit(rng)
+    lines = render_logicals(c["cont"], c["doc"]) + [rng.choice(["\\", " \\ ", "a\\\\", "\\ b", "", "  ", "x&", "&", "a \\\t"]) for _ in range(rng.choice([0, 1, 2]))]
+    rng.shuffle(lines)
+    return {"op": "unsplit", "lines": lines, "cont": rng.choice([c["cont"], "\\", "", "ab", " ", "\\\\"]), "keep": rng.random() < 0.5}
+
+
+OPT_KEYS = ["rw", "ro", "rsize", "xyz", "noatime", "a b", "é", "k-1", "x.y", "", "relatime", "rw"]
+OPT_VALS = ["32168", "", "a b", "x=y", "\"quoted\"", "'single'", "\"mis'", "\"\"", "a\"b\"", "é", "1", " lead", "trail ", "\"in, side\""]
+
+
+def gen_optlist(rng):
+    osep = rng.choice([",", ",", ", ", ";", "|"])
+    kv = rng.choice(["=", "=", ":", None])
+    sq = rng.random() < 0.4
+    items = []
+    for _ in range(rng.choice([1, 1, 2, 3, 5, 8])):
+        for _try in range(30):
+            k = rng.choice(OPT_KEYS)
+            v = rng.choice(OPT_VALS)
+            ok = osep not in k + osep[:-1] and osep not in v + osep[:-1] and (kv is None or kv not in k)
+            if ok and (kv is None or rng.random() < 0.5 or stripped(k)):
+                break
+        else:
+            k, v = "k", "v"
+        if kv is not None and stripped(k) and rng.random() < 0.5:
+            items.append(["kv", rng.choice([0, 0, 1]), k, rng.choice([0, 0, 2]), v])
+        elif kv is None or kv not in k:
+            items.append(["flag", k])
+    if not items:
+        items = [["flag", "rw"]]
+    c = {"op": "optlist", "os": osep, "kv": kv, "sq": sq, "items": items, "oracle": True}
+    if osep == "," and kv == "=" and not sq and rng.random() < 0.5:
+        c["omit"] = True
+    return c
+
+
+def gen_optlist_irregular(rng):
+    c = gen_optlist(rng)
+    text = c["os"].join(render_optitem(c["kv"] or "=", it) for it in c["items"])
+    text = rng.choice([text, text + c["os"], c["os"] + text, text.replace(" ", ""), "", "a=\"", "a='", "k==v", "=v", "a=\"x\" ", "a=b=c,d"])
+    return {"op": "optlist", "os": rng.choice([c["os"], ",", "", " "]), "kv": rng.choice([c["kv"], "=", "", None, "=="]), "sq": rng.random() < 0.6, "text": text}
+
+
+def gen_iniset(rng):
+    """a HISTORY on one parser object: parse, then a few set() calls (existing and new options, other spellings, padded
+    names, absent sections), then every accessor; and a fresh parser of the same text afterwards"""
+    base = gen_ini(rng, rng.random() < 0.4) if rng.random() < 0.7 else gen_ini_irregular(rng)
+    secs = ([it[2] for it in base["doc"] if it[0] == "sec"] if "doc" in base else ["main", "a b"]) or ["main"]
+    opts = ([it[1] for it in base["doc"] if it[0] == "opt"] if "doc" in base else ["key"]) or ["key"]
+    sets = []
+    for _ in range(rng.choice([1, 1, 2, 3])):
+        s_ = rng.choice(secs + secs + ["nosuch", "DEFAULT"])
+        s_ = rng.choice([s_, s_, " " + s_ + " "])
+        o_ = rng.choice(opts + ["newopt", "New Opt"])
+        o_ = rng.choice([o_, o_.upper(), " " + o_ + "  ", o_.swapcase()])
+        sets.append([s_, o_, rng.choice(["set-value", "", "1", "yes", "a = b", None])])
+    out = {"op": "iniset", "sets": sets, "anv": base.get("anv", False)}
+    qs = [list(q) for q in base["qs"]][:2] + [[s_, rng.choice([o_, o_.strip(), o_.strip().lower()])] for s_, o_, _ in sets][:2]
+    out["qs"] = qs
+    if "doc" in base:
+        out["doc"] = base["doc"]
+    else:
+        out["lines"] = base["lines"]
+    return out
 
 
 def gen_sort(rng):
@@ -1083,7 +1541,7 @@ def clash_witness():
 
 INI_SECS = ["main", "a b", "DEFAULT", "MY_DEFAULTS", "DEFAULTS", "default", "s-1", "x.y", "main"]
 INI_OPTS = ["key", "Key", "KEY", "other", "x y", "log_level", "a.b", "n1"]
-INI_VALS = ["v", "1", "true", "No", "ON", "two words", "a = b", "x:y", "", "/p/q;r", "100%", "Yes", "off", "0"]
+INI_VALS = ["v", "1", "true", "No", "ON", "two words", "a = b", "x:y", "", "/p/q;r", "100%", "Yes", "off", "0", "1.5", "-3", "1e3", "1,5", "0x10", "12"]
 
 
 def gen_ini(rng, with_default):
@@ -1198,6 +1656,8 @@ def gen_ini_irregular(rng):
                                                              "k = \\", "k = \\\\", "k = \\ \\", "k = a\\ \\", "  \\", "  \\ \\", "k = \\x \\", "   \\d+"]))
     elif k == 1:
         lines = ["stray = 1"] + lines
+    elif rng.random() < 0.15:
+        lines = rng.choice([[], [""], ["  ", ""], ["# only a comment"], ["; c", "", "  "], ["", "[late]", "k = v"]])
     return {"op": "ini", "lines": lines, "qs": c["qs"], "anv": rng.random() < 0.5}
 
 
@@ -1231,7 +1691,7 @@ def nontrivial(c, impl):
     op = c["op"]
     if op == "prim":
         return True
-    if impl.startswith("err") or impl == "parse-error":
+    if impl.startswith("err") or impl in ("parse-error", "skip"):
         return False
     if op in ("fixed", "delim", "ks"):
         return impl != "ok "
@@ -1260,8 +1720,10 @@ def run(chk):
                 "key/value documents with comments, blanks, duplicates, trailing comments; delimited tables with a printable one- or two-character "
                 "delimiter (cells padded, passing sepFree) or white-space gaps (spaces/tabs), a sufficient max_splits, junk lines + "
                 "heading_ignore, footer lines + trailing_ignore; INI documents with repeated sections, DEFAULT, option names differing in case) plus an IRREGULAR stream per helper "
-                "(all flags, missing headings, empty input, ragged rows, empty separators); non-trivial = distinct case whose answer is a "
-                "non-empty, non-error result")
+                "(all flags, missing headings, empty input, ragged rows, empty separators); round 10: logical lines rendered over continued "
+                "physical lines (unsplit_lines), option lists (optlist_to_dict), histories of set() calls on one IniConfigFile followed by a "
+                "fresh parser of the same text, header_substitute / empty_exception / filter_string on rendered documents, rows in list "
+                "subclasses and tuples; non-trivial = distinct case whose answer is a non-empty, non-error result")
     chk.assumptions = [
         "the INI grammar (insights/parsr/iniparser.py, an instance of the combinator library of C19) is not proved: it is tied on rendered "
         "documents to the model's line-level reading parseIni by the 'ini' stream; the theorems about IniConfigFile are over the tree it returns",
@@ -1270,6 +1732,7 @@ def run(chk):
         "headings name themselves — Props.C15.txkeys_order_independent); Python's sorted() on str is tied to the model's code-point order "
         "by the 'sort' stream; the `_transform_cache` on a parent is modelled for repeated searches over the SAME rows",
         "translate/matchers.py (ast -> Lean) is trusted for the shape of the five lambda bodies; Props.C15.matchers_spec pins their meaning",
+        "getint / getfloat are not modelled: they are held to Python's own int() / float() of what get() returns (error class included)",
     ]
     # ---- 0. matcher table from the live source
     try:
@@ -1319,6 +1782,11 @@ def run(chk):
     add(gen_ini, 300, True)
     add(gen_ini_irregular, 200)
     add(gen_ini_special, 300)
+    add(gen_unsplit, 300)
+    add(gen_unsplit_irregular, 150)
+    add(gen_optlist, 300)
+    add(gen_optlist_irregular, 150)
+    add(gen_iniset, 250)
     for c in ini_alphabet_cases():
         cases.append((c, None, None))
 
